@@ -183,6 +183,10 @@ class Case:
                 out.add("C04-F23-unrelated-abstract-type-condition")
         if re.search(r"(?<![A-Za-z0-9_])_+[0-9]", self.sc.sdl + (self.sc.queries or "")):
             out.add("C04-F18-underscore-digit-name")
+        # one selection-set scope (as the generator collects it) selects a composite field twice with differing
+        # sub-selections: the occurrences are not merged (root cause of C01 F27)
+        if self.sc.queries and S.repeated_composite_fields(self.schema, self.doc):
+            out.add("C04-F27-repeated-composite-field")
         if any("ExtractOperationsPlugin" in p for p in self.sc.config.get("plugins", [])):
             out.add("C04-F32-plugin-written-module")
         return out
@@ -342,6 +346,7 @@ type Mutation { m(i: Filter!): Dog }
 type Subscription { tick: Int }
 """
 CUSTOM = {"enable_custom_operations": True}
+from ..gen.frag_scen import SDL as FRAG_ZOO_SDL  # noqa: E402  (the zoo schema of the fragment-graph stream)
 # minimised inputs of every finding class and of every documented refusal; run first, deterministically
 CORPUS = [
     ("F2", "query Q($c: Boolean!) { animal { ... @include(if: $c) { name } } }", {}),
@@ -381,6 +386,8 @@ CORPUS = [
      {"include_all_enums": False, "scalars": {"DateTime": {"type": "datetime.datetime"}}}, S.DEP_SDL, "mixins"),
     ("ok-one-character-sunder-enum-values", "query Q($g: Grade = _A_) { grade(g: $g) }", {},
      "enum Grade { _A_ _1_ _x_ OK } input GI { g: Grade = _A_ gs: [Grade!] = [_1_, OK] } type Query { grade(g: Grade = _1_, i: GI): Grade }"),
+    ("F27", "query Mixed0($c: Boolean!) { dog { owner { ...zP @skip(if: $c) best { id ... on Cat { id } } } } } "
+            "fragment zP on Person { best { kind ... on Dog { name } } }", {}, FRAG_ZOO_SDL),
     ("fixed-F34", "query Q { s }", CUSTOM, "type Query { class: ID! from(x: Int): Int s: String }"),
     ("fixed-F33", "fragment F0 on Person { age } fragment F1 on Person { boss { ...F0 } } "
             "fragment F3 on Person { boss { boss { ...F1 } } } query Q { people { ...F0 } }", {},
@@ -670,6 +677,7 @@ SYMPTOMS = {
     "C04-F23-unrelated-abstract-type-condition": lambda k, d: k == "generation-crash" and "ParsingError" in d and "not found in type" in d,
     "C04-F32-plugin-written-module": lambda k, d: (k == "reported-files" and "operations.py" in d)
                                      or (k == "import-failed" and ".operations'" in d) or (k == "modules-listed" and "operations" in d),
+    "C04-F27-repeated-composite-field": lambda k, d: k == "import-failed" and "mapped to multiple choices" in d,
     "C04-F18-underscore-digit-name": lambda k, d: (k == "generation-crash" and "InvalidInput" in d) or (k == "import-failed" and "SyntaxError" in d),
 }
 
